@@ -8,7 +8,14 @@ func init() {
 		Mutant{Name: "c18-sublist-len-stale", Prop: "C18", File: "uePolicyContainer/UePolicyContainer_UEPolicySectionManagementSubList.go", Old: "\tu.SetLen(uint16(1 + 1 + 1 + len(contentByte)))", New: "\tu.SetLen(uint16(1 + 1 + len(contentByte)))",
 			Expect: "seq.len-covers / uePolicyContainer.(*UEPolicySectionManagementSubList).MarshalBinary", Why: "length does not count the third PLMN octet"},
 		Mutant{Name: "c18-instruction-len-not-recomputed", Prop: "C18", File: ins, Old: "binary.Write(buf, binary.BigEndian, i.Len)", New: "binary.Write(buf, binary.BigEndian, i.Upsc)",
-			Expect: "seq.len-covers", Why: "length field no longer derived from content"},
+			Expect: "seq.dual / uePolicyContainer.(*Instruction).MarshalBinary", Why: "length field no longer written: parser reads Len where the serialiser wrote Upsc"},
 		Mutant{Name: "c18-keep-len-expr", Prop: "C18", File: "uePolicyContainer/UePolicyContainer_UEPolicySectionManagementSubList.go", Old: "\tu.SetLen(uint16(1 + 1 + 1 + len(contentByte)))", New: "\tu.SetLen(uint16(len(contentByte) + 3))", Keep: true, Why: "same length"},
+	)
+}
+
+func init() {
+	addMutants(
+		Mutant{Name: "c18-part-len-stale-regression", Prop: "C18", File: "uePolicyContainer/UePolicyContainer_UEPolicyParts.go", Old: "\t// len\n\t_ = u.SetLen_byContent()\n", New: "\t// len\n\tif u.Len == 0 {\n\t\t_ = u.SetLen_byContent()\n\t}\n",
+			Expect: "seq.len-covers / uePolicyContainer.(*UEPolicyPart).MarshalBinary", Why: "the repaired stale-length defect returns"},
 	)
 }
